@@ -687,3 +687,24 @@ RECIPES += [
      '        sig2_4 = (Df4 / Dt4) ** 0.25\n        G4 = sig2_4 / (',
      'G4 from the fourth root: degree 1 in the amplitude'),
 ]
+
+RECIPES += [
+    ("C10", 'neutral', [], FDE, '            b, a = coeffunc(Q, dT, wn)\n            resphist = signal.lfilter(b, a, sig)\n            SRSmax[j] = abs(resphist).max()\n            Var[j] = np.var(resphist, ddof=1)\n\n            # use rainflow to count cycles:\n            ind = cyclecount.findap(resphist)\n            rf = cyclecount.rainflow(resphist[ind])\n\n            amp = rf["amp"]\n            count = rf["count"]\n            Amax[j] = amp.max()\n            BinAmps[j] *= Amax[j]\n\n            # cumulative bin count:\n            for jj in range(nbins):\n                pv = amp >= BinAmps[j, jj]\n                Count[j, jj] = np.sum(count[pv])\n',
+     '            def one(j, wn):\n                b, a = coeffunc(Q, dT, wn)\n                resphist = signal.lfilter(b, a, sig)\n                SRSmax[j] = abs(resphist).max()\n                Var[j] = np.var(resphist, ddof=1)\n                rf = cyclecount.rainflow(resphist[cyclecount.findap(resphist)])\n                amp = rf["amp"]\n                count = rf["count"]\n                Amax[j] = amp.max()\n                BinAmps[j] *= Amax[j]\n                for jj in range(nbins):\n                    Count[j, jj] = np.sum(count[amp >= BinAmps[j, jj]])\n\n            one(j, wn)\n',
+     'per-frequency work in a nested function that writes the enclosing arrays'),
+    ("C10", 'neutral', [], FDE, '    if parallel == "yes":\n        # global shared',
+     '    use_pool = parallel == "yes"\n    if use_pool:\n        # global shared',
+     'parallel arm selected through a named flag'),
+    ("C10", 'neutral', [], CYC, '        PV = np.zeros(y.size, numba_bool)\n        PV[0] = True\n',
+     '        PV = np.zeros(y.size, numba_bool)\n        PV[:1] = True\n',
+     'loop variant: first sample marked through a one-element slice'),
+    ("C10", 'break', ['C10-R6'], CYC, '        PV = np.zeros(y.size, numba_bool)\n        PV[0] = True\n',
+     '        PV = np.zeros(y.size, numba_bool)\n        PV[1] = True\n',
+     'loop variant: the second sample is marked instead of the first'),
+    ("C10", 'break', ['C10-R5'], CYC, '        index = _getlabels(form, aveb)\n        columns = _getlabels(form, ampb)\n',
+     '        index = _getlabels(form, ampb)\n        columns = _getlabels(form, aveb)\n',
+     'row labels from the amplitude bins, column labels from the mean bins'),
+    ("C10", 'break', ['C10-R5'], CYC, '        index = _getlabels(form, aveb)\n        columns = _getlabels(form, ampb)\n',
+     '        index = [form.format(aveb[k + 1], aveb[k]) for k in range(len(aveb) - 1)]\n        columns = _getlabels(form, ampb)\n',
+     'row labels with the two edges of each bin exchanged'),
+]
